@@ -151,16 +151,16 @@ theorem EInv.congr {P : Prog} {i : Frid} {s s' : St W} (h : EInv P i s)
 
 /-! ### what is assumed of the entry points of the level below (ghost map) -/
 
-structure OpOKE (P : Prog) (op : Frid → St W → Except Err (St W)) : Prop where
-  emod : ∀ y s s', Owned P s → op y s = .ok s' → EMod P (Reach P y) s s'
-  einv : ∀ y s s', Owned P s → op y s = .ok s' → s'.bad2 = false → s.dbl = false → EInvR P y s →
+structure OpOKE (P : Prog) (pre : Frid → St W → Prop) (op : Frid → St W → Except Err (St W)) : Prop where
+  emod : ∀ y s s', Owned P s → pre y s → op y s = .ok s' → EMod P (Reach P y) s s'
+  einv : ∀ y s s', Owned P s → pre y s → op y s = .ok s' → s'.bad2 = false → s.dbl = false → EInvR P y s →
     EInvR P y s' ∧ s'.dbl = false
 
 structure LoSpecE (P : Prog) (lo : Ops W) : Prop where
-  enterAll : OpOKE P lo.enterAll
-  exitAll : OpOKE P lo.exitAll
-  recur : OpOKE P lo.recur
-  segue : OpOKE P lo.segue
+  enterAll : OpOKE P (Claimed P) lo.enterAll
+  exitAll : OpOKE P NoPre lo.exitAll
+  recur : OpOKE P NoPre lo.recur
+  segue : OpOKE P NoPre lo.segue
 
 /-- a part of an operation on framer `i` that enters / exits no frame of `i` and keeps `i`'s active frame -/
 structure EQ (P : Prog) (i : Frid) (s s' : St W) : Prop where
@@ -202,13 +202,14 @@ include hlo hle
 
 omit hlo hle in
 /-- an entry point of the level below, called on a kid `y` of `i` -/
-theorem lo_eq {op : Frid → St W → Except Err (St W)} (hop : OpOK P op) (hope : OpOKE P op) {i y : Frid}
-    (hy : Child P i y) {s s' : St W} (ho : Owned P s) (h : op y s = .ok s') : EQ P i s s' := by
-  have hm := hop.mod y s s' ho h
-  have he := hope.emod y s s' ho h
+theorem lo_eq {pre : Frid → St W → Prop} {op : Frid → St W → Except Err (St W)} (hop : OpOK P pre op)
+    (hope : OpOKE P pre op) {i y : Frid}
+    (hy : Child P i y) {s s' : St W} (ho : Owned P s) (hpre : pre y s) (h : op y s = .ok s') : EQ P i s s' := by
+  have hm := hop.mod y s s' ho hpre h
+  have he := hope.emod y s s' ho hpre h
   refine ⟨he.mono (fun j hj => ⟨y, hy, hj⟩), ?_, core_active (hm.same i (not_reach_parent wf hy))⟩
   intro hb hd hbl
-  have r := hope.einv y s s' ho h hb hd (hbl y hy)
+  have r := hope.einv y s s' ho hpre h hb hd (hbl y hy)
   refine ⟨?_, r.2⟩
   intro y' hy' j hj
   by_cases e : y' = y
@@ -233,9 +234,10 @@ theorem EQO.of_step {i : Frid} {s s' : St W} (hE : EStep s s') (hS : Step P i s 
   fun ho => ⟨EQ.of_estep wf hE hS.1 hS.2.1, owned_of_step hS.1 hS.2 ho⟩
 
 omit hlo hle in
-theorem EQO.ofLo {op : Frid → St W → Except Err (St W)} (hop : OpOK P op) (hope : OpOKE P op) {i y : Frid}
-    (hy : Child P i y) {s s' : St W} (h : op y s = .ok s') : EQO P i s s' :=
-  fun ho => ⟨lo_eq wf hop hope hy ho h, hop.owned y s s' ho h⟩
+theorem EQO.ofLo {pre : Frid → St W → Prop} {op : Frid → St W → Except Err (St W)} (hop : OpOK P pre op)
+    (hope : OpOKE P pre op) {i y : Frid}
+    (hy : Child P i y) {s s' : St W} (hpre : pre y s) (h : op y s = .ok s') : EQO P i s s' :=
+  fun ho => ⟨lo_eq wf hop hope hy ho hpre h, hop.owned y s s' ho hpre h⟩
 
 omit hlo hle in
 /-- entering / exiting a frame of `i` does not disturb the invariant below `i` -/
@@ -292,8 +294,9 @@ theorem frameEnter_e {f : Fid} {s s' : St W} (ho : Owned P s) (h : frameEnter P 
     refine forEach_rel (R := EQO P (P.frame f).framer) (EQO.refl _) (fun _ _ _ => EQO.trans) _ _ ?_ _ _ h
     intro y hy t t' ht
     have hc := plain_child (P := P) hy
-    exact EQO.trans (EQO.of_step wf (estep_claim P y f t) (claim_step wf hc f t))
-      (EQO.ofLo wf hlo.enterAll hle.enterAll hc ht)
+    have hk : y ∈ kids P f := List.mem_append_left _ hy
+    exact EQO.trans (EQO.of_step wf (estep_claim P y f t) (claim_step wf hk t))
+      (EQO.ofLo wf hlo.enterAll hle.enterAll hc (claim_claimed wf hk t) ht)
 
 theorem deactivateAux_eqo {i y : Frid} (hy : Child P i y) {s s' : St W} (h : deactivateAux P lo y s = .ok s') :
     EQO P i s s' := by
@@ -303,11 +306,11 @@ theorem deactivateAux_eqo {i y : Frid} (hy : Child P i y) {s s' : St W} (h : dea
   | ok s1 =>
     simp only [h1, Except.ok.injEq] at h
     subst h
-    exact EQO.trans (EQO.ofLo wf hlo.exitAll hle.exitAll hy h1)
-      (EQO.of_step wf (estep_release P y s1) (release_step wf hy s1))
+    exact EQO.trans (EQO.ofLo wf hlo.exitAll hle.exitAll hy trivial h1)
+      (EQO.of_step wf (estep_release P y s1) (release_step wf hy s1 (hlo.exit_done y s s1 h1)))
 
-theorem deactivize_eqo {i y : Frid} (hy : Child P i y) {s s' : St W} (h : deactivize P lo y s = .ok s') :
-    EQO P i s s' := by
+theorem deactivize_eqo {i y : Frid} (hy : Child P i y) {f : Fid} {s s' : St W}
+    (h : deactivize P lo f y s = .ok s') : EQO P i s s' := by
   unfold deactivize at h
   split at h
   · simp only [Except.ok.injEq] at h; subst h; exact EQO.refl _ _
@@ -451,10 +454,11 @@ variable (wfe : WFE P)
 include wfe
 
 /-- `Framer.enterAll` and the ghost map -/
-theorem enterAll_e {i : Frid} {s s' : St W} (ho : Owned P s) (h : enterAll P sem lo i s = .ok s') :
+theorem enterAll_e {i : Frid} {s s' : St W} (ho : Owned P s) (hcl : Claimed P i s)
+    (h : enterAll P sem lo i s = .ok s') :
     EMod P (Reach P i) s s' ∧
     (s'.bad2 = false → s.dbl = false → EInvR P i s → EInvR P i s' ∧ s'.dbl = false) := by
-  have hspec := enterAll_spec wf hlo ho h
+  have hspec := enterAll_spec wf hlo ho hcl h
   unfold enterAll at h
   obtain ⟨s2, hs2⟩ : ∃ x, x = activate P i (P.framer i).first
       ((markReenter (s.fr i).active.isSome s).modFr i (fun x => { x with done := false })) := ⟨_, rfl⟩
@@ -464,7 +468,7 @@ theorem enterAll_e {i : Frid} {s s' : St W} (ho : Owned P s) (h : enterAll P sem
     exact ((estep_markReenter _ s).trans (estep_modFr i _ _)).trans (estep_activate P i _ _)
   have st2 : Step P i s s2 := by
     rw [hs2]; unfold activate
-    exact ((step_markReenter P i _ s).trans (step_modFr P i _ _)).trans
+    exact ((step_markReenter P i _ s).trans (step_undone P i _ hcl)).trans
       ((step_modFr P i _ _).trans (step_emit P i _ _))
   have hact2 : (s2.fr i).active = some (P.framer i).first ∧
       (s2.fr i).actives = (P.frame (P.framer i).first).outline := by
@@ -481,6 +485,7 @@ theorem enterAll_e {i : Frid} {s s' : St W} (ho : Owned P s) (h : enterAll P sem
       by_cases e : j = i
       · subst e; rw [hact2.1] at ha; cases ha; exact wf.firstOwn j
       · rw [st2.active j e] at ha; exact ho.active j a ha
+    · exact st2.mainI ho.main
   have o := enter_e wf hlo hle (l := (s2.fr i).actives) (by rw [hact2.2]; exact hfirst) ho2 h
   rw [hact2.2] at o
   have hnd := wfe.outlineNodup (P.framer i).first
@@ -562,7 +567,7 @@ theorem exitAll_e {i : Frid} {abort : Bool} {s s' : St W} (ho : Owned P s)
   have e0 : EStep s s0 := hs0 ▸ estep_markLeft _ s
   have hfr0 : ∀ j, s0.fr j = s.fr j := fun j => by rw [hs0]; rfl
   have ho0 : Owned P s0 := ⟨fun j f hf => ho.actives j f (by rw [← hfr0]; exact hf),
-    fun j a ha => ho.active j a (by rw [← hfr0]; exact ha)⟩
+    fun j a ha => ho.active j a (by rw [← hfr0]; exact ha), hs0 ▸ ho.main⟩
   cases h1 : exit P sem lo (s.fr i).actives s0 with
   | error e => simp [h1] at h
   | ok s1 =>
@@ -674,7 +679,7 @@ theorem frameRecur_eqo {f : Fid} {s s' : St W} (h : frameRecur P sem lo f s = .o
     (runActs_step P sem .recur f _ _ (wf.doneRe f) _)) ?_
   refine forEach_rel (R := EQO P (P.frame f).framer) (EQO.refl _) (fun _ _ _ => EQO.trans) _ _ ?_ _ _ h
   intro y hy t t' ht
-  exact EQO.ofLo wf hlo.recur hle.recur (plain_child hy) ht
+  exact EQO.ofLo wf hlo.recur hle.recur (plain_child hy) trivial ht
 
 omit wf hlo hle wfe in
 theorem frames_eqo {i : Frid} (g : Fid → St W → Except Err (St W))
@@ -703,6 +708,7 @@ theorem suspend_eqo {i : Frid} {f : Fid} (hf : (P.frame f).framer = i) {needs : 
     (h : suspend P sem lo i f needs aux tracts s = .ok (b, s')) : EQO P i s s' := by
   have c : Clause P i f aux := ⟨hf, susp_mem hp⟩
   have hch := c.kid.child
+  have hk : aux ∈ kids P f := List.mem_append_right _ c.susp
   have tr := wf.donePre f _ hp
   simp only [PreactDoneOnly, hf] at tr
   unfold suspend at h
@@ -714,12 +720,12 @@ theorem suspend_eqo {i : Frid} {f : Fid} (hf : (P.frame f).framer = i) {needs : 
       by_cases ho' : ownedElsewhere aux f s = true
       · simp only [ho', if_true, Except.ok.injEq, Prod.mk.injEq] at h; rw [← h.2]; exact EQO.refl _ _
       · simp only [ho', if_false, Bool.false_eq_true] at h
-        cases hcs : lo.checkStart aux s with
+        cases hcs : lo.checkStart aux [] s with
         | error e => simp [hcs] at h
         | ok cs =>
           cases cs with
-          | false => simp only [hcs, Except.ok.injEq, Prod.mk.injEq] at h; rw [← h.2]; exact EQO.refl _ _
-          | true =>
+          | none => simp only [hcs, Except.ok.injEq, Prod.mk.injEq] at h; rw [← h.2]; exact EQO.refl _ _
+          | some _ =>
             simp only [hcs] at h
             unfold suspendEnter at h
             obtain ⟨sb, hsb⟩ : ∃ x, x = claim P aux f (runActs sem .transit f tracts s) := ⟨_, rfl⟩
@@ -728,7 +734,7 @@ theorem suspend_eqo {i : Frid} {f : Fid} (hf : (P.frame f).framer = i) {needs : 
             have qb : EQO P i s sb := by
               rw [hsb]
               exact EQO.trans (EQO.of_step wf (estep_runActs sem .transit f tracts s) (runActs_step P sem .transit f i tracts tr s))
-                (EQO.of_step wf (estep_claim P aux f _) (claim_step wf hch f _))
+                (EQO.of_step wf (estep_claim P aux f _) (hf ▸ claim_step wf hk _))
             cases h1 : lo.enterAll aux sb with
             | error e => simp [h1] at h
             | ok sc =>
@@ -738,8 +744,8 @@ theorem suspend_eqo {i : Frid} {f : Fid} (hf : (P.frame f).framer = i) {needs : 
               | ok sd =>
                 simp only [h2] at h
                 have qd : EQO P i s sd :=
-                  EQO.trans qb (EQO.trans (EQO.ofLo wf hlo.enterAll hle.enterAll hch h1)
-                    (EQO.ofLo wf hlo.recur hle.recur hch h2))
+                  EQO.trans qb (EQO.trans (EQO.ofLo wf hlo.enterAll hle.enterAll hch (hsb ▸ claim_claimed wf hk _) h1)
+                    (EQO.ofLo wf hlo.recur hle.recur hch trivial h2))
                 by_cases hdd : (sd.fr aux).done = true
                 · simp only [hdd, if_true] at h
                   cases h3 : deactivateAux P lo aux sd with
@@ -759,11 +765,14 @@ theorem suspend_eqo {i : Frid} {f : Fid} (hf : (P.frame f).framer = i) {needs : 
                     exact (step_markOverlap P i _ sd).trans ((step_modFr P i _ _).trans (step_emit P i _ _))
                   refine ⟨EQ.of_estep wf e1 st1 (by simp [truncate]), ?_⟩
                   apply owned_truncate
-                  · exact ⟨fun j g hg => hod.actives j g hg, fun j a ha => hod.active j a ha⟩
+                  · exact ⟨fun j g hg => hod.actives j g hg, fun j a ha => hod.active j a ha, hod.main⟩
                   · intro g hg; rw [wf.headOwn f g hg, hf]
     · simp only [hn, if_false, Except.ok.injEq, Prod.mk.injEq, Bool.false_eq_true] at h
       rw [← h.2]; exact EQO.refl _ _
   · simp only [hd, if_false, Bool.false_eq_true] at h
+    by_cases hno : notOwner P aux f s = true
+    · simp only [hno, if_true, Except.ok.injEq, Prod.mk.injEq] at h; rw [← h.2]; exact EQO.refl _ _
+    simp only [hno, if_false, Bool.false_eq_true] at h
     unfold suspendRun at h
     cases h1 : lo.segue aux s with
     | error e => simp [h1] at h
@@ -774,7 +783,7 @@ theorem suspend_eqo {i : Frid} {f : Fid} (hf : (P.frame f).framer = i) {needs : 
       | ok sb =>
         simp only [h2] at h
         have qb : EQO P i s sb :=
-          EQO.trans (EQO.ofLo wf hlo.segue hle.segue hch h1) (EQO.ofLo wf hlo.recur hle.recur hch h2)
+          EQO.trans (EQO.ofLo wf hlo.segue hle.segue hch trivial h1) (EQO.ofLo wf hlo.recur hle.recur hch trivial h2)
         by_cases hdd : (sb.fr aux).done = true
         · simp only [hdd, if_true] at h
           cases h3 : deactivateAux P lo aux sb with
@@ -810,6 +819,7 @@ theorem suspend_eqo {i : Frid} {f : Fid} (hf : (P.frame f).framer = i) {needs : 
                   exact hoc.active j a' ha'
                 · simp only [fr_emit, fr_modFr, e, if_false] at ha'
                   exact hoc.active j a' ha'
+              · exact st1.mainI hoc.main
         · simp only [hdd, if_false, Except.ok.injEq, Prod.mk.injEq, Bool.false_eq_true] at h
           rw [← h.2]; exact qb
 
@@ -844,7 +854,7 @@ theorem transit_ep {i : Frid} {f : Fid} (hf : (P.frame f).framer = i) {needs : L
           exact ho.actives i g (hnears ▸ Outline.exEn_reexens_mem _ _ _ g hg)
         have hne : r.2.1 ≠ [] := by
           intro e
-          unfold checkEnter at hc
+          unfold checkEnter checkEnterC at hc
           simp [e] at hc
         obtain ⟨k, hk1, hk2, hk3, hk4⟩ := Outline.exEn_decomp far nears (P.frame far).outline (hr ▸ hne)
         rw [← hr] at hk1 hk2 hk3
@@ -1068,7 +1078,7 @@ theorem segue_ep {i : Frid} {s s' : St W} (h : segue P sem lo i s = .ok s') : EP
       intro f t t' ht
       refine forEach_rel (R := EQO P (P.frame f).framer) (EQO.refl _) (fun _ _ _ => EQO.trans) _ _ ?_ _ _ ht
       intro y hy u u' hu
-      exact EQO.ofLo wf hlo.segue hle.segue (plain_child hy) hu
+      exact EQO.ofLo wf hlo.segue hle.segue (plain_child hy) trivial hu
     have r1 := (EQO.trans q0 q1) ho
     have p2 := segueLoop_ep wf hlo hle wfe (s1.fr i).actives (fun f hf => r1.2.actives i f hf) s1 s' h
     exact EP.trans (EP.of_eqo wf (EQO.trans q0 q1)) p2 ho
@@ -1076,14 +1086,14 @@ theorem segue_ep {i : Frid} {s s' : St W} (h : segue P sem lo i s = .ok s') : EP
 /-- the entry points of the next level satisfy the ghost-map specification too -/
 theorem nextOps_specE : LoSpecE P (nextOps P sem lo) := by
   refine ⟨⟨?_, ?_⟩, ⟨?_, ?_⟩, ⟨?_, ?_⟩, ⟨?_, ?_⟩⟩
-  · intro y s s' ho h; exact (enterAll_e wf hlo hle wfe ho h).1
-  · intro y s s' ho h; exact (enterAll_e wf hlo hle wfe ho h).2
-  · intro y s s' ho h; exact (exitAll_e wf hlo hle wfe ho h).1
-  · intro y s s' ho h; exact (exitAll_e wf hlo hle wfe ho h).2
-  · intro y s s' ho h; exact (EP.of_eqo wf (recur_eqo wf hlo hle h) ho).1
-  · intro y s s' ho h; exact (EP.of_eqo wf (recur_eqo wf hlo hle h) ho).2.2
-  · intro y s s' ho h; exact (segue_ep wf hlo hle wfe h ho).1
-  · intro y s s' ho h; exact (segue_ep wf hlo hle wfe h ho).2.2
+  · intro y s s' ho hc h; exact (enterAll_e wf hlo hle wfe ho hc h).1
+  · intro y s s' ho hc h; exact (enterAll_e wf hlo hle wfe ho hc h).2
+  · intro y s s' ho _ h; exact (exitAll_e wf hlo hle wfe ho h).1
+  · intro y s s' ho _ h; exact (exitAll_e wf hlo hle wfe ho h).2
+  · intro y s s' ho _ h; exact (EP.of_eqo wf (recur_eqo wf hlo hle h) ho).1
+  · intro y s s' ho _ h; exact (EP.of_eqo wf (recur_eqo wf hlo hle h) ho).2.2
+  · intro y s s' ho _ h; exact (segue_ep wf hlo hle wfe h ho).1
+  · intro y s s' ho _ h; exact (segue_ep wf hlo hle wfe h ho).2.2
 
 end walk
 
